@@ -214,6 +214,27 @@ def blocked_interval_rule(ctx: Ctx, rid: str):
                 raise Inconclusive(f"initScoreboard:{loop.lineno}: bounds {norm(loop.iter)} of an interval loop are not slot(start) + c / slot(end) + c")
             continue
         n += 1
+        # the conversion of a leave bound is total: a leave that overlaps the project window only partly must still block the part
+        # inside it, so the bound may be clamped but the leave may not be skipped because one of its ends lies outside the window
+        for d_ in own_nodes(fn):
+            if isinstance(d_, ast.Call) and isinstance(d_.func, ast.Attribute) and d_.func.attr == "dateToIdx" and "interval" in norm(d_) \
+                    and abs(getattr(d_, "lineno", 0) - loop.lineno) <= 12 and d_.lineno <= loop.lineno:
+                recv = norm(d_.func.value)
+                forced = (len(d_.args) >= 2 and isinstance(d_.args[1], ast.Constant) and d_.args[1].value is True) or \
+                    any(k.arg == "forceIntoProject" and isinstance(k.value, ast.Constant) and k.value.value is True for k in d_.keywords)
+                partial = not (recv.endswith("project") or forced)
+                p_, skipping = getattr(d_, "_parent", None), False
+                while p_ is not None and p_ is not fn.node:
+                    if isinstance(p_, ast.Try) and any(d_ is x for st_ in p_.body for x in ast.walk(st_)) and any(
+                            isinstance(x, (ast.Continue, ast.Pass, ast.Break)) for h_ in p_.handlers for x in ast.walk(h_)):
+                        skipping = True
+                    p_ = getattr(p_, "_parent", None)
+                bad_ = partial or skipping
+                ctx.ob(rid, f"{fn.qual}: {norm(d_)[:70]} is defined for every date", (fn, d_), not bad_,
+                       "raw slot index of the project (dates outside the window give indices outside it, clamped by the loop bounds)" if not bad_ else
+                       "the bound is converted by a function that raises for a date outside the project window" + (" and the handler skips the leave" if skipping else "") +
+                       ": a leave that begins before the project start or ends after its end is dropped as a whole and its days inside the window are worked",
+                       key=key_of_text(rid, fn.qual, f"total conversion {norm(d_)[:60]}"))
         for which, e, a in offs:
             ok = a[1] == 0
             ctx.ob(rid, f"{fn.qual}: loop {norm(loop.iter)[:60]}: {which} bound = {a[0][:50]} {a[1]:+d}", (fn, loop), ok,
